@@ -112,6 +112,8 @@ class PartitionLog:
                             older = any(True for (s, c, o, t) in st["last"])
                             self.cluster.seq_errors.append((self.tp, pid, seq, expect))
                             return 45, -1, -1  # OUT_OF_ORDER_SEQUENCE_NUMBER
+            if transactional and not control:
+                self.cluster.observe_txn_produce(self.tp, pid, epoch)
             base = self.next_offset
             ts_type = 1 if self.log_append_time else 0
             append_ts = now_ms if self.log_append_time else -1
@@ -548,6 +550,25 @@ class Cluster:
 
     def now(self):
         return asyncio.get_event_loop().time()
+
+    def observe_txn_produce(self, tp, pid, epoch):
+        """ground truth for C07: transactional data only inside an open transaction, and only to
+        partitions whose AddPartitionsToTxn the coordinator has acknowledged (the leader itself does
+        not check this -- pre-KIP-890 behaviour)"""
+        st = None
+        for s in self.txns.values():
+            if s.pid == pid:
+                st = s
+        if st is None:
+            self.problems.append(f"transactional produce to {tp} by an unknown producer id {pid}")
+            return
+        self.txn_log.append((self.now(), "produce", pid, epoch, tp, st.state, tp in st.partitions))
+        if epoch != st.epoch:
+            return  # a fenced incarnation: rejected by the epoch check
+        if st.state != "Ongoing":
+            self.problems.append(f"transactional data written to {tp} outside an open transaction (coordinator state {st.state})")
+        elif tp not in st.partitions:
+            self.problems.append(f"produce to {tp} before the coordinator acknowledged adding it to the transaction")
 
     def now_ms(self):
         return int(1_600_000_000_000 + self.now() * 1000)
